@@ -42,6 +42,9 @@ pub struct VocabSpec {
     pub words: Vec<String>,
     pub eos: u32,
     pub mode: TokMode,
+    /// additional EOS token ids (multi-EOS vocabularies)
+    #[serde(default, skip_serializing_if = "Vec::is_empty")]
+    pub eos_extra: Vec<u32>,
 }
 
 #[derive(Clone, Debug, Serialize, Deserialize)]
@@ -196,7 +199,12 @@ impl TokenizerEnv for SimTokEnv {
 
 pub fn make_tok_env(v: &VocabSpec, canonical: bool) -> TokEnv {
     let words: Vec<Vec<u8>> = v.words.iter().map(|w| unhex(w)).collect();
-    let trie = TokTrie::from(&TokRxInfo::new(words.len() as u32, v.eos), &words);
+    let mut trie = TokTrie::from(&TokRxInfo::new(words.len() as u32, v.eos), &words);
+    if !v.eos_extra.is_empty() {
+        let mut all = vec![v.eos];
+        all.extend_from_slice(&v.eos_extra);
+        trie = trie.with_eos_tokens(&all);
+    }
     let mut ranks = HashMap::new();
     if v.mode == TokMode::Bpe {
         for (i, w) in words.iter().enumerate() {
@@ -234,6 +242,7 @@ pub fn byte_vocab() -> VocabSpec {
         words: words.iter().map(|w| hex(w)).collect(),
         eos,
         mode: TokMode::Greedy,
+        eos_extra: vec![],
     }
 }
 
@@ -257,6 +266,7 @@ pub fn bpe_vocab(rng: &mut Rng) -> VocabSpec {
         } else {
             TokMode::Greedy
         },
+        eos_extra: vec![],
     }
 }
 
@@ -356,6 +366,7 @@ pub fn synth_vocab(rng: &mut Rng, samples: &[Vec<u8>]) -> VocabSpec {
         words: words.iter().map(|w| hex(w)).collect(),
         eos,
         mode: TokMode::Greedy,
+        eos_extra: vec![],
     }
 }
 
@@ -446,6 +457,17 @@ impl World {
 
     pub fn eos(&self) -> TokenId {
         self.spec.vocab.eos
+    }
+
+    pub fn is_eos(&self, t: TokenId) -> bool {
+        t == self.spec.vocab.eos || self.spec.vocab.eos_extra.contains(&t)
+    }
+
+    /// all EOS tokens, primary first
+    pub fn eos_all(&self) -> Vec<TokenId> {
+        let mut v = vec![self.spec.vocab.eos];
+        v.extend_from_slice(&self.spec.vocab.eos_extra);
+        v
     }
 
     pub fn new_parser_with(&self, factory: &ParserFactory) -> Result<TokenParser> {
